@@ -1346,6 +1346,42 @@ CHECKS['C14'] = c14
 CHECKS['C15'] = c15
 
 
+
+# ----------------------------------------------------------------------------------------- C18
+def c18(tier):
+    import itertools, concurrent.futures as cf
+    import tcp
+    rep = Report('C18', tier)
+    r = vlib.tlc_model('MC_tcp', workers=8, timeout=1200)
+    rep.add_model(r, 'TCP life-cycle model: all scripts of <= 3 faults over {refuse, close, frames, partial+reset, junk} then a healthy connection: '
+                     'ConnKeepsTable, NoLoss, PauseRespected (safety) and Recovers (liveness under weak fairness)')
+    binary = vlib.build_cli('release')
+    if tier == 'quick':
+        seqs = [('refuse',), ('close',), ('frames', 'partial'), ('junk', 'refuse'), ('partial', 'frames'), ('frames', 'close', 'junk')]
+    else:
+        seqs = [s for n in (1, 2, 3) for s in itertools.product(tcp.FAULTS, repeat=n)]
+    events = []
+    with cf.ThreadPoolExecutor(max_workers=16) as ex:
+        futs = [ex.submit(tcp.run_scenario, binary, s, i + 1) for i, s in enumerate(seqs)]
+        events = [f.result() for f in futs]
+    tr = os.path.join(vlib.workdir(), 'tcp.trace.ndjson')
+    vlib.write_ndjson(tr, events)
+    rep.add_validation(vlib.validate([tr], 'C18'), key_fn=lambda e: tuple(e['faults']))
+    rep.samples = [{'faults': e['faults'], 'accept_times_ms': [c['t_accept'] for c in e['conns']], 'alive': e['alive']} for e in events[:3]]
+    rep.extra['fault_sequences'] = len(seqs)
+    rep.rule = ('%s, each followed by a healthy connection, played by a loopback peer against the real release binary (-t 127.0.0.1:port '
+                '--update=-1); recorded: accept times, bytes sent, close/reset, last refresh, process liveness. TLC checks: one accept per non-refused '
+                'script element and the healthy one, gap after n refusals within [5n-0.5, 5n+2] s, prompt reconnect (< 2.5 s) after close/reset, '
+                'process alive, last refresh lists exactly the aircraft whose complete frames were delivered on any connection (partial lines and junk '
+                'contribute nothing and break nothing). Non-trivial = sequence with at least one fault; distinct by fault sequence' %
+                ('6 fault sequences of length 1..3' if tier == 'quick' else 'all 155 fault sequences of length <= 3 over 5 fault kinds'))
+    vlib.nt_floor(rep, 5)
+    return rep
+
+
+CHECKS['C18'] = c18
+
+
 # ---------------------------------------------------------------------------------------- replay
 def replay(prop, path):
     """re-executes the scenario of a replay file against the current tree and validates it again"""
